@@ -140,14 +140,21 @@ def check(case):
             if not a.equals(b):
                 res.fail('demo', 'canonical_demo_data() not reproducible', '')
         elif op == 'tmp_seed_raise':
-            def body():
-                try:
-                    with utils.tmp_seed(123):
-                        np.random.random(3)
-                        raise ValueError('boom')
-                except ValueError:
-                    pass
-            guarded(res, 'a tmp_seed block whose body raises', body)
+            draws = {}
+            for sd in (0, 1, 123, 2 ** 32 - 1):
+                for raising in (True, False):
+                    def body(sd=sd, raising=raising):
+                        try:
+                            with utils.tmp_seed(sd):
+                                draws.setdefault(sd, []).append(np.random.random(3).tolist())
+                                if raising:
+                                    raise ValueError('boom')
+                        except ValueError:
+                            pass
+                    guarded(res, f'a tmp_seed({sd}) block whose body ' + ('raises' if raising else 'completes'), body)
+                    np.random.random(1)      # move the ambient state between the two blocks
+                if draws[sd][0] != draws[sd][1]:
+                    res.fail('rng', f'draws inside tmp_seed({sd}) depend on the ambient random state', '')
     try:
         d2, _ = guarded(res, 'run()/metar_msg() (second time)', lambda: digest_of(case))
         if d2 != d1:
